@@ -51,9 +51,9 @@ Proof.
   - destruct (analyze G e) as [i1|] eqn:E1; [|discriminate].
     destruct (IHe i1 eq_refl) as (v & Hv & Hk). exists v. split; [exact Hv|].
     destruct (ann i1) as [a|[b|]|[z|]] eqn:Ea; try discriminate.
-    + destruct (md a); [discriminate|]. inversion HA; subst. cbn. rewrite Ea in Hk. exact Hk.
-    + inversion HA; subst. cbn. rewrite Ea in Hk. exact Hk.
-    + inversion HA; subst. cbn. rewrite Ea in Hk. exact Hk.
+    + destruct (md a); [discriminate|]. inversion HA; subst. cbn. exact Hk.
+    + inversion HA; subst. cbn. exact Hk.
+    + inversion HA; subst. cbn. exact Hk.
   - (* EAdd *)
     destruct (analyze G e1) as [ia|] eqn:E1; [|discriminate].
     destruct (analyze G e2) as [ib|] eqn:E2; [|discriminate].
